@@ -69,6 +69,12 @@ def gen_cases(ctx) -> List[Dict[str, Any]]:
         for e in ("deadline_during_exit", "exception_deadline_during_exit"):
             for lead in ([0.3] if ctx.tier == "quick" else [0.05, 0.3, 0.8]):
                 cases.append({"behaviour": b, "exit": e, "moment": "after_response", "cancel_after": 1.2, "lead": lead})
+    # the same through the wrapper APIs (StdioTransport, connect_to_server/MCPClient)
+    for api in ("transport", "connect_to_server"):
+        for b in ("well_behaved", "ignore_sigterm", "sigterm_slow:0.5"):
+            for e in exits + ["deadline_during_exit"]:
+                cases.append({"behaviour": b, "exit": e, "moment": "in_flight" if e != "deadline_during_exit" else "after_response",
+                              "api": api, "cancel_after": 1.2 if e == "deadline_during_exit" else 0.6})
     for b in ("unstartable", "not_executable"):
         for e in ("normal", "cancel"):
             cases.append({"behaviour": b, "exit": e, "moment": "before_first"})
